@@ -718,6 +718,101 @@ Section Proofs.
       - intros v Hv. exact (inv_mid_denote s0 (fun _ => True) j (snd r) HI (fun v p Hv' Hp => Hcodec v p Hv' Hp) v Hv).
       - destruct HI as (_ & _ & _ & Hd). exact Hd.
     Qed.
+
+    (** ... and the caller can carry on: after a save that may have raised half-way (with the except clause), ANY further
+        looks and a save that completes are lossless with respect to the original file.  The state after the aborted save
+        is an ordinary "looked-at" state of another file [ref_after]: the lumps of the views still cached are those of the
+        original, every other lump is what the object holds now (rewritten by the writers that already ran). *)
+    Definition cached_owner (s : state) (l : nat) : bool :=
+      existsb (fun v => is_cached D P s v && mem l (own v)) (seq 0 nviews).
+    Definition ref_after (s0 s : state) : state :=
+      mkS (fun l => if cached_owner s l then raw s0 l else raw s l) (fun _ => None).
+
+    Lemma cached_owner_own : forall (s : state) v l, v < nviews -> In l (own v) -> cached_owner s l = is_cached D P s v.
+    Proof.
+      intros s v l Hv Hl. unfold cached_owner. destruct (is_cached D P s v) eqn:E.
+      - apply existsb_exists. exists v. split; [apply in_seq; lia|]. rewrite E. cbn [andb]. now apply mem_In.
+      - destruct (existsb _ _) eqn:Ex; [|reflexivity]. apply existsb_exists in Ex. destruct Ex as (w & Hw & Hb).
+        apply in_seq in Hw. apply andb_prop in Hb. destruct Hb as [Hc Hm]. apply mem_In in Hm.
+        destruct (Nat.eq_dec w v) as [->|Hne]; [congruence|].
+        exfalso. exact (own_disj w v l ltac:(lia) Hv Hne Hm Hl).
+    Qed.
+
+    Lemma ref_after_own_data : forall (s0 s : state) v, v < nviews ->
+      own_data (ref_after s0 s) v = if is_cached D P s v then own_data s0 v else own_data s v.
+    Proof.
+      intros s0 s v Hv. unfold LazyLumps.own_data at 1. cbn [raw ref_after].
+      destruct (is_cached D P s v) eqn:E; unfold LazyLumps.own_data; apply map_ext_in; intros l Hl;
+        rewrite (cached_owner_own s v l Hv Hl), E; reflexivity.
+    Qed.
+
+    Lemma ref_after_unowned : forall (s0 s : state) l, ~ owned l -> raw (ref_after s0 s) l = raw s l.
+    Proof.
+      intros s0 s l Hl. cbn [raw ref_after]. destruct (cached_owner s l) eqn:E; [|reflexivity].
+      exfalso. apply Hl. unfold cached_owner in E. apply existsb_exists in E. destruct E as (w & Hw & Hb).
+      apply in_seq in Hw. apply andb_prop in Hb. destruct Hb as [_ Hm]. apply mem_In in Hm. exists w. split; [lia | exact Hm].
+    Qed.
+
+    Lemma ref_after_pv : forall (s0 s : state) j, codec_ok s0 -> Inv s0 (fun _ => True) j j s ->
+      forall v, v < nviews -> pv (ref_after s0 s) v = pv s0 v.
+    Proof.
+      intros s0 s j Hcodec (_ & Hb & Hc & _) v Hv. unfold pv. rewrite (ref_after_own_data s0 s v Hv).
+      unfold LazyLumps.is_cached.
+      destruct (Nat.lt_ge_cases v j) as [Hlt|Hge].
+      - destruct (Hb v Hlt) as [Hn [Ho|(_ & p & Hp & Ho)]]; rewrite Hn, Ho; [reflexivity|].
+        unfold pv in Hp. rewrite Hp. now apply Hcodec.
+      - destruct (Hc v Hge Hv) as [[Hn Ho]|(_ & Hg & Hs)].
+        + rewrite Hn, Ho. reflexivity.
+        + apply good_pv in Hg. destruct (cache s v); [reflexivity | exfalso; apply Hg; now rewrite <- Hs].
+    Qed.
+
+    Lemma ref_after_good : forall (s0 s : state) j, codec_ok s0 -> Inv s0 (fun _ => True) j j s ->
+      forall v, v < nviews -> good s0 v -> good (ref_after s0 s) v.
+    Proof.
+      intros s0 s j Hcodec HI v Hv Hg. revert Hv. induction Hg as [v Hp Hd IH]. intros Hv. constructor.
+      - rewrite (ref_after_pv s0 s j Hcodec HI v Hv). exact Hp.
+      - intros d Hin. apply IH; [exact Hin|]. apply (deps_gt v d Hv). apply in_or_app. now left.
+    Qed.
+
+    Lemma ref_after_inv : forall (s0 s : state) j, codec_ok s0 -> Inv s0 (fun _ => True) j j s ->
+      Inv (ref_after s0 s) (fun _ => True) 0 0 s.
+    Proof.
+      intros s0 s j Hcodec HI. pose proof HI as (Ha & Hb & Hc & Hd). split; [exact Ha|]. split; [intros v Hv; lia|]. split.
+      - intros v _ Hv. rewrite (ref_after_own_data s0 s v Hv), (ref_after_pv s0 s j Hcodec HI v Hv). unfold LazyLumps.is_cached.
+        destruct (Nat.lt_ge_cases v j) as [Hlt|Hge].
+        + destruct (Hb v Hlt) as [Hn _]. rewrite Hn. left. split; reflexivity.
+        + destruct (Hc v Hge Hv) as [[Hn Ho]|(_ & Hg & Hs)].
+          * rewrite Hn. left. split; reflexivity.
+          * right. split; [exact I|]. split; [exact (ref_after_good s0 s j Hcodec HI v Hv Hg) | exact Hs].
+      - intros l Hl. now rewrite ref_after_unowned.
+    Qed.
+
+    Theorem retry_after_aborted_save_lossless : forall s0 accs accs2, fresh s0 -> wr_len_ok s0 -> codec_ok s0 ->
+      let r := save_a true (run accs s0) in
+      let r2 := save_a true (run accs2 (snd r)) in
+      fst r2 = true -> fresh (snd r2) /\ same_content (snd r2) s0.
+    Proof.
+      intros s0 accs accs2 Hf Hlen Hcodec r r2 Ht.
+      destruct (save_a_inv s0 (fun _ => True) closed_all Hlen (run accs s0) (inv_run_all s0 accs Hf)) as (j & Hj & HI & _).
+      fold r in HI. set (s1 := ref_after s0 (snd r)).
+      assert (Hsame : same_content s1 s0).
+      { split.
+        - intros v Hv. exact (ref_after_pv s0 (snd r) j Hcodec HI v Hv).
+        - intros l Hl. unfold s1. rewrite ref_after_unowned by exact Hl. destruct HI as (_ & _ & _ & Hd). exact (Hd l Hl). }
+      destruct (fresh_same_hyps s1 s0 Hsame Hlen Hcodec) as [Hlen1 Hcodec1].
+      assert (HI1 : Inv s1 (fun _ => True) 0 0 (run accs2 (snd r))).
+      { apply (run_inv s1 (fun _ => True) closed_all); [intros; exact I | exact (ref_after_inv s0 (snd r) j Hcodec HI)]. }
+      destruct (save_a_like_save true (run accs2 (snd r))) as [Hfl Heq]. fold r2 in Hfl, Heq.
+      rewrite Hfl in Ht. rewrite (Heq Ht).
+      destruct (save_inv s1 (fun _ => True) closed_all Hlen1 (run accs2 (snd r)) HI1) as [H1 _].
+      destruct (H1 Ht) as (Ha & Hb & _ & Hd).
+      assert (Hfr : fresh (snd (save (run accs2 (snd r))))).
+      { intros v. destruct (Nat.lt_ge_cases v nviews) as [Hv|Hv]; [apply Hb, Hv | apply Ha, Hv]. }
+      split; [exact Hfr|]. destruct Hsame as [Hp Hu]. split.
+      - intros v Hv. rewrite <- (Hp v Hv). destruct (Hb v Hv) as [_ [Ho|(_ & p & Hpp & Ho)]]; rewrite Ho; [reflexivity|].
+        unfold pv in Hpp. rewrite Hpp. apply Hcodec1; assumption.
+      - intros l Hl. rewrite (Hd l Hl). exact (Hu l Hl).
+    Qed.
   End Consistent.
 End Proofs.
 
